@@ -7,6 +7,7 @@ PROPERTY = "C05"
 LEVEL = "proof"
 TARGETS = ['MutateAttr', 'SetAttr', 'WithAttr', 'ResetAttr', 'Reset', 'DelAttr', 'MutateValue', 'UpdateAttr', 'TransformAttr', 'Update', 'Transform']
 FAMILY_FILTER = ['c05.', 'c08.slot'] + STRUCTURAL
+SUBCHECKS = [("props._defaults", ["LookupDefault", "DefaultValue"])]
 ASSUMPTIONS = A_COMMON + [
     "clauses of other properties on the same functions are discharged by those properties' own checks",
     "transitive chains of invalidation, collection element helpers, update/transform (mutate_value) and the constructor are covered here "
